@@ -445,7 +445,9 @@ func (c *Ctx) pathConds(info *types.Info, body *ast.BlockStmt, target ast.Node, 
 				if stopAtLoop {
 					conds = nil
 				}
-				if p.Cond != nil {
+				if p.Cond != nil && !(stopAtLoop && isIndexLoop(info, p)) {
+					// the bound of a counting loop says which iterations exist, not which elements are
+					// selected: `for i := 0; i < len(xs); i++` is `for i := range xs`
 					conds = append(conds, cond{Expr: p.Cond})
 				}
 			}
@@ -687,4 +689,38 @@ func (c *Ctx) autoOpts(info *types.Info, e ast.Expr) *canonOpts {
 		}
 	}
 	return nil
+}
+
+// isIndexLoop: `for v := e; v <op> bound; v++ / v-- / v += k` - a counting loop whose condition only bounds the counter.
+func isIndexLoop(info *types.Info, p *ast.ForStmt) bool {
+	as, ok := p.Init.(*ast.AssignStmt)
+	if !ok || as.Tok != token.DEFINE || len(as.Lhs) != 1 {
+		return false
+	}
+	v := identObj(info, as.Lhs[0])
+	if v == nil {
+		return false
+	}
+	switch post := p.Post.(type) {
+	case *ast.IncDecStmt:
+		if identObj(info, post.X) != v {
+			return false
+		}
+	case *ast.AssignStmt:
+		if len(post.Lhs) != 1 || identObj(info, post.Lhs[0]) != v || (post.Tok != token.ADD_ASSIGN && post.Tok != token.SUB_ASSIGN) {
+			return false
+		}
+	default:
+		return false
+	}
+	be, ok := unparen(p.Cond).(*ast.BinaryExpr)
+	if !ok {
+		return false
+	}
+	switch be.Op {
+	case token.LSS, token.LEQ, token.GTR, token.GEQ, token.NEQ:
+	default:
+		return false
+	}
+	return identObj(info, be.X) == v || identObj(info, be.Y) == v
 }
